@@ -9,27 +9,24 @@ Local Open Scope Z_scope.
 Local Open Scope string_scope.
 
 Ltac kinds k :=
-  destruct k as [ | | | | b | | | s | b s c m | s | m | | | s];
-  try destruct b; try destruct s; try destruct c; try destruct m.
+  destruct k as [ | | | | b | | | s v | b s c m | s | m | | | s];
+  try destruct b; try destruct s; try destruct v; try destruct c; try destruct m.
 
-(* scanline skipping while merged upsampling is selected (F5) *)
-Definition crop_merged (k : opk) : bool :=
-  match k with KDecompress B8 _ true true | KDecompress B12 _ true true => true | _ => false end.
-(* kinds whose result is read off members that only an earlier call may have written *)
+Definition getter (k : opk) : bool := match k with KGetICC | KTransformBufSize => true | _ => false end.
+(* single-call probes: the getters report what the preceding tj3DecompressHeader left (probe them
+   after a header call); tj3DecodeYUV* still reads the permanent Huffman table slots (F13) unless
+   the translator finds that fixed *)
 Definition plain_probe (k : opk) : bool :=
   match k with
-  | KGetICC | KTransformBufSize => false      (* getters of what tj3DecompressHeader left: probe them after a header call *)
-  | KDecodeYUV _ => false                      (* F10 *)
-  | KTransform _ => false                      (* F11 *)
-  | _ => negb (crop_merged k)
+  | KGetICC | KTransformBufSize => false
+  | KDecodeYUV _ => decodeyuv_ignores_huffman_slots
+  | _ => true
   end.
-Definition getter (k : opk) : bool := match k with KGetICC | KTransformBufSize => true | _ => false end.
 
-(* all operation kinds; the analysis of every kind is run once per lemma (the entry state of
-   the history mode is computed once) *)
 Definition all_kinds : list opk :=
   [KSet; KSetScaling; KSetCrop; KSetICC; KCompress B8; KCompress B12; KCompress B16; KCompressYUV; KEncodeYUV;
-   KGetICC; KTransformBufSize; KHeader true; KHeader false; KDecompressYUV true; KDecompressYUV false;
+   KGetICC; KTransformBufSize; KHeader true true; KHeader true false; KHeader false true; KHeader false false;
+   KDecompressYUV true; KDecompressYUV false;
    KDecodeYUV true; KDecodeYUV false; KTransform true; KTransform false] ++
   flat_map (fun b => flat_map (fun s => flat_map (fun c => map (fun m => KDecompress b s c m) [true; false]) [true; false]) [true; false])
            [B8; B12; B16].
@@ -53,130 +50,117 @@ Proof.
   rewrite Hp in H. cbn in H. exact H.
 Qed.
 
+(* the source as it is now: EVERY kind of call is fine inside a history *)
+Lemma ok_hist_faithful : forall k, ok_hist faithful k = true.
+Proof. intro k. apply (hist_ok_all_spec faithful (fun _ => true)); [vm_cast_no_check (eq_refl true) | reflexivity]. Qed.
 Lemma ok_hist_fixed : forall k, ok_hist all_fixed k = true.
 Proof. intro k. apply (hist_ok_all_spec all_fixed (fun _ => true)); [vm_cast_no_check (eq_refl true) | reflexivity]. Qed.
-
-Lemma ok_hist_faithful : forall k, crop_merged k = false -> ok_hist faithful k = true.
-Proof.
-  intros k H. apply (hist_ok_all_spec faithful (fun k => negb (crop_merged k))); [vm_cast_no_check (eq_refl true)|].
-  rewrite H. reflexivity.
-Qed.
-
-Lemma ok_probe_fixed : forall k, is_selfc k = true -> getter k = false -> ok_probe all_fixed [k] = true.
-Proof.
-  intros k H G. apply (probe_ok_all_spec all_fixed (fun k => is_selfc k && negb (getter k))); [vm_cast_no_check (eq_refl true)|].
-  rewrite H, G. reflexivity.
-Qed.
 
 Lemma ok_probe_faithful : forall k, is_selfc k = true -> plain_probe k = true -> ok_probe faithful [k] = true.
 Proof.
   intros k H G. apply (probe_ok_all_spec faithful (fun k => is_selfc k && plain_probe k)); [vm_cast_no_check (eq_refl true)|].
   rewrite H, G. reflexivity.
 Qed.
+Lemma ok_probe_fixed : forall k, is_selfc k = true -> getter k = false -> ok_probe all_fixed [k] = true.
+Proof.
+  intros k H G. apply (probe_ok_all_spec all_fixed (fun k => is_selfc k && negb (getter k))); [vm_cast_no_check (eq_refl true)|].
+  rewrite H, G. reflexivity.
+Qed.
 
-Lemma ok_probe_getters_fixed :
-  ok_probe all_fixed [KHeader true; KGetICC] = true /\ ok_probe all_fixed [KHeader true; KTransformBufSize] = true.
+(* the getters, probed after a header call with valid arguments *)
+Lemma ok_probe_getters_faithful :
+  ok_probe faithful [KHeader true true; KGetICC] = true /\ ok_probe faithful [KHeader true true; KTransformBufSize] = true.
 Proof. vm_compute. auto. Qed.
 
-(* ------------------------------------------------------------ witnesses *)
-Definition cl (k : opk) (a : list (string * Z)) : call := mkcall k a.
-Definition used (h : list call) (ic id : bool) : xstate := run faithful h (init_x ic id).
-Definition res_used (h cs : list call) (ic id : bool) :=
-  probe faithful cs (xs (used h ic id)) (xd (used h ic id)).
-Definition res_fresh (h cs : list call) (ic id : bool) :=
-  probe faithful cs (fresh_like (xs (used h ic id))) dest0.
+(* tj3DecodeYUV* apart from the Huffman-slot read: F10 and F12 are fixed in the source *)
+Definition faithful_but_f13 : fixes := mkfix (fx5 faithful) (fx9 faithful) (fx10 faithful) (fx11 faithful) (fx2 faithful) (fx12 faithful) true.
+Lemma decodeyuv_ok_but_f13 : forall m, ok_probe faithful_but_f13 [KDecodeYUV m] = true.
+Proof. intro m. destruct m; vm_compute; reflexivity. Qed.
 
-(* F5: decode a 4:4:4 image (separate upsampling + colour converter); set FASTUPSAMPLE and a
-   cropping region; decode a 4:2:0 image (merged upsampling): read_and_discard_scanlines
-   uses the colour converter of the first image *)
+(* ------------------------------------------------------------ regression witnesses *)
+(* each history is run on the model of the current source with exactly ONE fix taken out again *)
+Definition cl (k : opk) (a : list (string * Z)) : call := mkcall k a.
+Definition res_used (fx : fixes) (h cs : list call) (ic id : bool) :=
+  let x := run fx h (init_x ic id) in probe fx cs (xs x) (xd x).
+Definition res_fresh (fx : fixes) (h cs : list call) (ic id : bool) :=
+  let x := run fx h (init_x ic id) in probe fx cs (fresh_like (xs x)) dest0.
+Definition without5 := mkfix false true true true true true true.
+Definition without9 := mkfix true false true true true true true.
+Definition without10 := mkfix true true false true true true true.
+Definition without11 := mkfix true true true false true true true.
+Definition without2 := mkfix true true true true false true true.
+Definition without12 := mkfix true true true true true false true.
+Definition without13 := mkfix true true true true true true false.
+
 Definition f5_history : list call :=
   [cl (KDecompress B8 true false false) [("img", 1); ("jw", 48); ("jh", 40); ("jprec", 8); ("ncomp", 3)];
    cl KSet [("param", 9); ("value", 1)];
-   cl (KHeader true) [("img", 2); ("jw", 64); ("jh", 48); ("jprec", 8); ("ncomp", 3)];
+   cl (KHeader true true) [("img", 2); ("jw", 64); ("jh", 48); ("jprec", 8); ("ncomp", 3)];
    cl KSetCrop [("x", 0); ("y", 16); ("w", 64); ("h", 16)]].
 Definition f5_probe : list call :=
   [cl (KDecompress B8 true true true) [("img", 2); ("jw", 64); ("jh", 48); ("jprec", 8); ("ncomp", 3); ("skip_tail", 1)]].
+Lemma f5_regression :
+  snd (res_used without5 f5_history f5_probe false true) = Some (UseAfterFree (OD, "cconvert")) /\
+  snd (res_fresh without5 f5_history f5_probe false true) = None /\
+  res_used all_fixed f5_history f5_probe false true = res_fresh all_fixed f5_history f5_probe false true.
+Proof. vm_compute. auto. Qed.
 
-Lemma f5_witness :
-  skip_ignores_stale_cconvert = false ->
-  snd (res_used f5_history f5_probe false true) = Some (UseAfterFree (OD, "cconvert")) /\
-  snd (res_fresh f5_history f5_probe false true) = None.
-Proof. intro H. first [ solve [vm_compute in H; discriminate H] | vm_compute; auto ]. Qed.
-
-Lemma f5_fixed : skip_ignores_stale_cconvert = true -> forall k, ok_hist faithful k = true.
-Proof.
-  intros H k.
-  first [ solve [vm_compute in H; discriminate H]
-        | apply (hist_ok_all_spec faithful (fun _ => true)); [vm_cast_no_check (eq_refl true) | reflexivity] ].
-Qed.
-
-(* F9: header of an image with an ICC profile, then header of an image without one, then
-   tj3GetICCProfile *)
 Definition f9_history : list call :=
-  [cl (KHeader true) [("img", 11); ("has_icc", 1); ("icc_id", 600); ("jw", 48); ("jh", 32); ("jprec", 8); ("ncomp", 3)]].
+  [cl (KHeader true true) [("img", 11); ("has_icc", 1); ("icc_id", 600); ("jw", 48); ("jh", 32); ("jprec", 8); ("ncomp", 3)]].
 Definition f9_probe : list call :=
-  [cl (KHeader true) [("img", 1); ("has_icc", 0); ("jw", 48); ("jh", 40); ("jprec", 8); ("ncomp", 3)];
+  [cl (KHeader true true) [("img", 1); ("has_icc", 0); ("jw", 48); ("jh", 40); ("jprec", 8); ("ncomp", 3)];
    cl KGetICC [("fetch", 1)]].
+Lemma f9_regression :
+  fst (res_used without9 f9_history f9_probe false true) <> fst (res_fresh without9 f9_history f9_probe false true) /\
+  res_used all_fixed f9_history f9_probe false true = res_fresh all_fixed f9_history f9_probe false true.
+Proof. split; [vm_compute; intro E; discriminate E | vm_compute; reflexivity]. Qed.
 
-Lemma f9_witness :
-  header_discards_old_icc = false ->
-  fst (res_used f9_history f9_probe false true) <> fst (res_fresh f9_history f9_probe false true).
-Proof. intro H. first [ solve [vm_compute in H; discriminate H] | vm_compute; intro E; discriminate E ]. Qed.
-
-Lemma f9_fixed : header_discards_old_icc = true -> ok_probe faithful [KHeader true; KGetICC] = true.
-Proof. intro H. first [ solve [vm_compute in H; discriminate H] | vm_compute; reflexivity ]. Qed.
-
-(* F10: decompress a lossless JPEG, then tj3DecodeYUV8 *)
 Definition f10_history : list call :=
   [cl (KDecompress B8 true false false) [("img", 7); ("lossless", 1); ("jw", 31); ("jh", 23); ("jprec", 8); ("ncomp", 3)];
    cl KSet [("param", 4); ("value", 2)]].
 Definition f10_probe : list call := [cl (KDecodeYUV true) [("img", 99)]].
+(* the self-contained lossless stream also leaves its Huffman tables in the slots: compare under the F13 fix *)
+Lemma f10_regression :
+  fst (res_used without10 f10_history f10_probe false true) <> fst (res_fresh without10 f10_history f10_probe false true) /\
+  res_used all_fixed f10_history f10_probe false true = res_fresh all_fixed f10_history f10_probe false true.
+Proof. split; [vm_compute; intro E; discriminate E | vm_compute; reflexivity]. Qed.
 
-Lemma f10_witness :
-  decodeyuv_resets_lossless = false ->
-  fst (res_used f10_history f10_probe false true) <> fst (res_fresh f10_history f10_probe false true).
-Proof. intro H. first [ solve [vm_compute in H; discriminate H] | vm_compute; intro E; discriminate E ]. Qed.
-
-Lemma f10_fixed :
-  decodeyuv_resets_lossless = true -> decodeyuv_resets_marker_flags = true -> forall m, ok_probe faithful [KDecodeYUV m] = true.
-Proof.
-  intros H H' m.
-  first [ solve [vm_compute in H; discriminate H] | solve [vm_compute in H'; discriminate H'] | destruct m; vm_compute; reflexivity ].
-Qed.
-
-(* F12: header of an RGB JPEG with an Adobe marker (transform 0, no JFIF marker), then tj3DecodeYUV8:
-   default_decompress_parms takes the planes for RGB *)
 Definition f12_history : list call :=
-  [cl (KHeader true) [("img", 19); ("adobe", 1); ("adobe_tr", 0); ("jfif", 0); ("jw", 32); ("jh", 32); ("jprec", 8); ("ncomp", 3)];
+  [cl (KHeader true true) [("img", 19); ("adobe", 1); ("adobe_tr", 0); ("jfif", 0); ("jw", 32); ("jh", 32); ("jprec", 8); ("ncomp", 3)];
    cl KSet [("param", 4); ("value", 0)]].
 Definition f12_probe : list call := [cl (KDecodeYUV false) [("img", 98)]].
+Lemma f12_regression :
+  fst (res_used without12 f12_history f12_probe false true) <> fst (res_fresh without12 f12_history f12_probe false true) /\
+  res_used all_fixed f12_history f12_probe false true = res_fresh all_fixed f12_history f12_probe false true.
+Proof. split; [vm_compute; intro E; discriminate E | vm_compute; reflexivity]. Qed.
 
-Lemma f12_witness :
-  decodeyuv_resets_marker_flags = false ->
-  fst (res_used f12_history f12_probe false true) <> fst (res_fresh f12_history f12_probe false true).
-Proof. intro H. first [ solve [vm_compute in H; discriminate H] | vm_compute; intro E; discriminate E ]. Qed.
-
-(* F11: a 12-bit compression, then a lossless transform of an 8-bit JPEG on the same instance *)
 Definition f11_history : list call :=
   [cl KSet [("param", 3); ("value", 80)]; cl KSet [("param", 4); ("value", 2)];
    cl (KCompress B12) [("img", 50); ("w", 16); ("h", 16); ("pf", 3)]].
 Definition f11_probe : list call :=
   [cl (KTransform true) [("img", 1); ("jw", 64); ("jh", 48); ("jprec", 8); ("ncomp", 3)]].
+Lemma f11_regression :
+  fst (res_used without11 f11_history f11_probe true true) <> fst (res_fresh without11 f11_history f11_probe true true) /\
+  res_used all_fixed f11_history f11_probe true true = res_fresh all_fixed f11_history f11_probe true true.
+Proof. split; [vm_compute; intro E; discriminate E | vm_compute; reflexivity]. Qed.
 
-Lemma f11_witness :
-  copy_critical_sets_precision_first = false ->
-  fst (res_used f11_history f11_probe true true) <> fst (res_fresh f11_history f11_probe true true).
+(* F13 (open): a header that fails after a (truncated) DHT leaves a table in the permanent slot; tj3DecodeYUV8
+   then builds its derived tables from it *)
+Definition f13_history : list call :=
+  [cl KSet [("param", 4); ("value", 2)];
+   cl (KHeader true true) [("img", 4); ("fail", 2); ("f_soi", 1); ("f_sof", 1); ("f_tables", 1); ("prog", 1)]].
+Definition f13_probe : list call := [cl (KDecodeYUV true) [("img", 97)]].
+Lemma f13_witness :
+  decodeyuv_ignores_huffman_slots = false ->
+  fst (res_used faithful f13_history f13_probe false true) <> fst (res_fresh faithful f13_history f13_probe false true).
 Proof. intro H. first [ solve [vm_compute in H; discriminate H] | vm_compute; intro E; discriminate E ]. Qed.
+Lemma f13_fixed : decodeyuv_ignores_huffman_slots = true -> forall m, ok_probe faithful [KDecodeYUV m] = true.
+Proof. intros H m. first [ solve [vm_compute in H; discriminate H] | destruct m; vm_compute; reflexivity ]. Qed.
+Lemma f13_regression :
+  fst (res_used without13 f13_history f13_probe false true) <> fst (res_fresh without13 f13_history f13_probe false true) /\
+  res_used all_fixed f13_history f13_probe false true = res_fresh all_fixed f13_history f13_probe false true.
+Proof. split; [vm_compute; intro E; discriminate E | vm_compute; reflexivity]. Qed.
 
-Lemma f11_fixed : copy_critical_sets_precision_first = true -> ok_probe faithful [KTransform true] = true.
-Proof. intro H. first [ solve [vm_compute in H; discriminate H] | vm_compute; reflexivity ]. Qed.
-
-(* the witness histories consist of calls that are fine as history calls *)
-Lemma witness_histories_ok :
-  Forall (fun c => ok_hist faithful (c_kind c) = true) (f5_history ++ f9_history ++ f10_history ++ f11_history ++ f12_history).
-Proof. repeat constructor; vm_compute; reflexivity. Qed.
-
-(* F1 / F2 regressions: the fixed source is what the generated data must show *)
 Lemma f1_regression_data :
   match find_fn "tj3DecompressHeader" api_functions with
   | Some f => fn_uses_d f = true /\ ErrPaths.fn_ok f = true
@@ -184,23 +168,20 @@ Lemma f1_regression_data :
   end.
 Proof. vm_compute. auto. Qed.
 
-(* F2: compress with a NULL buffer (the library allocates and grows), the caller frees the
-   result, compresses again into a fresh small buffer that has to grow *)
 Definition f2_history : list call :=
   [cl KSet [("param", 3); ("value", 90)]; cl KSet [("param", 4); ("value", 0)];
    cl (KCompress B8) [("img", 1); ("w", 128); ("h", 96); ("bufmode", 0); ("grow", 1)];
    cl (KCompress B8) [("img", 2); ("w", 128); ("h", 96); ("bufmode", 1); ("grow", 1)]].
 Lemma f2_regression_lemma :
   d_doublefree (xd (run faithful f2_history (init_x true false))) = negb dest_forgets_newbuffer /\
-  d_doublefree (xd (run (mkfix true true true true false true) f2_history (init_x true false))) = true /\
+  d_doublefree (xd (run without2 f2_history (init_x true false))) = true /\
   d_doublefree (xd (run all_fixed f2_history (init_x true false))) = false.
 Proof. vm_compute. auto. Qed.
 
-Lemma partial_nonvacuous :
-  Forall (fun c' => crop_merged (c_kind c') = false) (f5_history ++ f11_history) /\
-  is_selfc (KDecompress B8 true true false) = true /\ plain_probe (KDecompress B8 true true false) = true /\
-  plain_probe (KCompress B12) = true.
-Proof. split; [repeat constructor | auto]. Qed.
+Lemma probes_nonvacuous :
+  is_selfc (KDecompress B8 true true true) = true /\ plain_probe (KDecompress B8 true true true) = true /\
+  plain_probe (KTransform true) = true /\ plain_probe (KCompress B12) = true.
+Proof. auto. Qed.
 
 (* ------------------------------------------------------------ (3) reset lists *)
 Fixpoint smem (x : string) (l : list string) : bool :=
